@@ -102,7 +102,7 @@ def collect_names(order="forward", warm=False):
         w[w.q > 2].q.max().optimize()
     fams = variation_families(dx, pdf, pdf_b)
     items = [(f"{fn}/{k}", mk) for fn, members in fams.items() for k, mk in members]
-    progs = [n for n in C.PROGRAMS if not n.startswith(("shuffle_disk",))]
+    progs = [n for n in C.PROGRAMS if not n.startswith(("shuffle_disk",)) and (C.PROGRAMS[n].only is None or "C08" in C.PROGRAMS[n].only)]
     for n in progs:
         items.append((f"prog/{n}", (lambda n=n: K.build(("range", 12, ("np", 3, True), n))[1])))
     if order == "reverse":
